@@ -149,7 +149,7 @@ def rule_R3(ck):
         def hook(I_, f, args, kwargs, node):
             # any other repo function applied to the image: keep as an opaque application, examined by R6
             if isinstance(f, Closure) and f.module.name == "bk_wav" and f.name not in ("encode_as_wav", "encode_data_bits", "make_wav_file", "translate_audio_levels") \
-                    and not isinstance(f.node, ast.Lambda):
+                    and not isinstance(f.node, ast.Lambda) and len(args) == 1 and args[0] == CODE and not kwargs:
                 calls.append(f)
                 return sym.op("apply", f.name, *args)
             return NotImplemented
@@ -313,9 +313,19 @@ def recognise_end_around(I, repo, fn_node, mod):
             threshold_problem = (f"VIOLATION: the fold loop runs while {test!r}: for a byte sum of exactly 0x{t:X} the body leaves the sum unchanged (its high part is 0), so the loop never ends and no file is written"
                                  if t < 0x10000 else
                                  f"VIOLATION: the fold loop runs while {test!r}: a byte sum of 0x10000 is returned unfolded and does not fit the 16-bit checksum word")
-        if len(w.body) != 1 or not isinstance(w.body[0], ast.Assign) or norm_text(w.body[0].targets[0]) != sv:
-            return "loop body is not a single re-assignment of the sum"
-        nxt = I.ev(w.body[0].value, env2, mod)
+        # one execution of the loop body on a symbolic sum (any straight-line body: divmod, temporaries, ...)
+        def body_once():
+            e3 = Env()
+            e3.vars.update(env2.vars)
+            I.exec_block(w.body, e3, mod)
+            return e3.vars.get(sv)
+        try:
+            once = I.explore(body_once)
+        except Unsupported as ex:
+            return f"loop body is not decided ({ex})"
+        if len(once) != 1 or once[0].kind != "return":
+            return "loop body is not straight-line code re-assigning the sum"
+        nxt = once[0].value
         want = sym.add(sym.band(SV, 0xffff), sym.shr(SV, 16))
         alt = sym.add(sym.mod(SV, 0x10000), sym.floordiv(SV, 0x10000))
         if nxt not in (want, alt):
@@ -441,39 +451,43 @@ def rule_R7(ck):
             if len(p.value) != 1 or p.value[0][2] != fmt or p.value[0][3] != want:
                 ck.violation(where, f"default output path for '{fmt}' (source {'with' if has_mac else 'without'} .mac) is {p.value[0][3] if p.value else None!r}, expected {want!r}",
                              construct=f"default output path {fmt}", expected=repr(want), found=repr(p.value[0][3]) if p.value else None)
-    # generic suffix-strip agreement over the package
+    # generic suffix-strip agreement over the package: wherever a literal suffix S is tested with endswith(S) and the same
+    # text is sliced [:k] on the true side (if-statement or conditional expression), k must be -len(S)
     n = 0
     for q, fn in repo.all_functions():
         for node in walk_local(fn):
-            if not isinstance(node, ast.If):
+            if isinstance(node, ast.If):
+                t, true_side = node.test, node.body
+            elif isinstance(node, ast.IfExp):
+                t, true_side = node.test, [node.body]
+            else:
                 continue
-            t = node.test
             if not (isinstance(t, ast.Call) and isinstance(t.func, ast.Attribute) and t.func.attr == "endswith" and t.args):
                 continue
             recv = t.func.value
-            if isinstance(recv, ast.Call) and isinstance(recv.func, ast.Attribute) and recv.func.attr in ("lower", "upper") and not recv.args:
+            if isinstance(recv, ast.Call) and isinstance(recv.func, ast.Attribute) and recv.func.attr in ("lower", "upper", "casefold") and not recv.args:
                 recv = recv.func.value
             rtxt = norm_text(recv)
             try:
                 suffix = ast.literal_eval(t.args[0])
             except ValueError:
                 suffix = None
-            for s in node.body:
-                if isinstance(s, ast.Assign) and norm_text(s.targets[0]) == rtxt and isinstance(s.value, ast.Subscript) and norm_text(s.value.value) == rtxt \
-                        and isinstance(s.value.slice, ast.Slice) and s.value.slice.lower is None and s.value.slice.upper is not None:
-                    n += 1
-                    try:
-                        k = ast.literal_eval(s.value.slice.upper)
-                    except ValueError:
-                        k = None
-                    ck.instance(("strip", q, rtxt, norm_text(t)), {"site": q, "test": norm_text(t), "strip": norm_text(s)}, fn=q)
-                    if isinstance(suffix, str) and isinstance(k, int):
-                        if k != -len(suffix):
-                            ck.violation(s, f"suffix {suffix!r} ({len(suffix)} characters) is stripped with [:{k}]", construct=f"suffix strip {suffix}", expected=f"[:-{len(suffix)}]", found=f"[:{k}]")
-                    else:
-                        ck.unknown(f"{q}: suffix strip with non-literal operands: {norm_text(t)} / {norm_text(s)}")
-    if n < 4:
-        ck.unknown(f"only {n} suffix-strip sites recognised (4 confirmed by hand: add_emitted_file, add_emitted_bk_wav x2, main_cli)")
+            for s_ in true_side:
+                for sub in ast.walk(s_):
+                    if isinstance(sub, ast.Subscript) and norm_text(sub.value) == rtxt and isinstance(sub.slice, ast.Slice) and sub.slice.lower is None and sub.slice.upper is not None:
+                        n += 1
+                        try:
+                            k = ast.literal_eval(sub.slice.upper)
+                        except ValueError:
+                            k = None
+                        ck.instance(("strip", q, rtxt, norm_text(t)), {"site": q, "test": norm_text(t), "strip": norm_text(sub)}, fn=q)
+                        if isinstance(suffix, str) and isinstance(k, int):
+                            if k != -len(suffix):
+                                ck.violation(sub, f"suffix {suffix!r} ({len(suffix)} characters) is stripped with [:{k}]", construct=f"suffix strip {suffix}", expected=f"[:-{len(suffix)}]", found=f"[:{k}]")
+                        elif not (isinstance(k, int) or (isinstance(sub.slice.upper, ast.UnaryOp) and isinstance(sub.slice.upper.operand, ast.Call) and norm_text(sub.slice.upper.operand.func) == "len")):
+                            ck.unknown(f"{q}: suffix strip with non-literal operands: {norm_text(t)} / {norm_text(sub)}")
+    if n < 1:
+        ck.unknown("no suffix-strip site recognised any more (add_emitted_file, add_emitted_bk_wav, main_cli strip '.mac')")
 
 
 def rule_R7cli(ck):
